@@ -169,6 +169,27 @@ theorem coef_contract_gauss_int (nt : NumTables) (a b : Int)
 example : gaussStr 3 (-12) = ['(', '3', '-', '1', '2', 'j', ')'] := by
   simp [gaussStr, intStr, natStr, toDigitsRev, digitChar]
 
+/-- **parse_print_roundtrip_int: the round trip for integer-coefficient operators with NO coefficient contract and NO
+canonical-form hypothesis.**  For every dictionary of a savable class whose keys are `_simplify` outputs with valid actions
+and whose coefficients are integers printed by `str`: if the supplied `float` table contains the printed texts and agrees
+with the exact integer model (the one fact the run checks on the real `float`), the string constructor applied to
+`str(A)` returns exactly the non-negligible terms of `A` -/
+theorem parse_print_roundtrip_int (cls : Cls) (hs : Savable cls) (tol : Rat) (nt : NumTables) (A : List Entry)
+    (hvalid : ∀ e ∈ A, ValidTerm cls e.1) (hkeys : ∀ e ∈ A, ∃ t, e.1 = (simplify cls t).2)
+    (hnodup : (A.map (·.1)).Nodup)
+    (hint : ∀ e ∈ A, ∃ z : Int, e.2.2 = intStr z ∧ e.2.1 = intGQ z)
+    (hmem : ∀ e ∈ A, ∃ w, (e.2.2, w) ∈ nt.pyFloat)
+    (hagree : ∀ e ∈ nt.pyFloat, ∀ v, floatIntModel e.1 = some v → e.2 = v)
+    (hne : printedEntries cls tol A ≠ []) :
+    initFromString cls nt (printOp cls tol A) = some (entryOp (printedEntries cls tol A)) := by
+  apply parse_print_roundtrip cls tol nt A _ hne
+  apply roundtrip_ok_of_simplified cls hs tol nt A hvalid hkeys hnodup
+  intro e he _
+  obtain ⟨z, htxt, hval⟩ := hint e he
+  obtain ⟨w, hw⟩ := hmem e he
+  rw [htxt, hval]
+  exact coef_contract_int nt z ⟨w, htxt ▸ hw⟩ hagree
+
 /-- **molecular_data_attribute_table** (`MolecularData.save` / `load` conventions `None ↦ False ↦ None`, `int(...)`,
 `float(...)`; h5py itself is a contract): `None`, every number (zero included) and every array survive
 `decode ∘ encode`; only a boolean-valued attribute collides with the sentinel -/
